@@ -164,6 +164,11 @@ def run(res):
         res.absorb(r)
     for r in fw.run_parallel(prim_case, [dict(seed=res.seed, idx=i) for i in range(60 if quick else 1500)], workers=8):
         res.absorb(r)
+    import props.C19 as C19
+    # Kang engine: a second run of the same object for another source must not keep energy of the
+    # first run (patches would show energy before the active source can reach them)
+    for r in fw.run_parallel(C19.rerun_case, [dict(seed=res.seed, idx=i) for i in range(4 if quick else 40)]):
+        res.absorb(r)
     import props.C01 as C01
     for r in fw.run_parallel(C01.kernel_case, [dict(seed=res.seed + 1, idx=i) for i in range(30 if quick else 400)]):
         res.absorb(r)
